@@ -27,6 +27,6 @@ def instances():
                     inputs="saved safety / lock flags of iterator and table, index, direction"))
     for o, on in (("auto", "FORALLStatement::AUTO"), ("desc", "FORALLStatement::DESC")):
         out.append(Inst(id="c06.forall.run.%s" % o, props=["C06", "C09", "C01"], harness="h_c06.cpp", entry="c06_forall_run", tus=FA_TUS + ["blocc/statement_for.cpp"],
-                        defs=["VX_FORDER=%s" % on], stubs=FMT_STUBS + CTX_STUBS + CONTAINER_STUBS[3:], unwind=4, timeout=600,
+                        defs=["VX_FORDER=%s" % on], stubs=FMT_STUBS + CTX_STUBS + CONTAINER_STUBS[3:], unwind=4, timeout=3000, tier="thorough",
                         bounds="table variable of 2 integers, complete traversal", inputs="element values, whether the body writes through the iterator, written value"))
     return out
